@@ -74,10 +74,11 @@ type WriteCacheVal struct{ Parent, Child T }
 // IterVal is a store iterator: ghost sequence of keys with the view it ranges over.
 type IterVal struct {
 	View  *ViewVal
-	Pfx   T   // iteration prefix (Bytes) relative to the view
-	Seq   T   // (Array Int Bytes): keys relative to the view
-	N     T   // length
-	IdxID int // cell id holding the current index
+	Pfx   T      // iteration prefix (Bytes) relative to the view
+	Seq   T      // (Array Int Bytes): keys relative to the view
+	N     T      // length
+	IdxID int    // cell id holding the current index
+	Pos   string // Skolem function: position of a key in Seq
 }
 
 // OpaqueVal is a value the executor does not model (with a reason).
@@ -181,19 +182,21 @@ func truncate(s string, n int) string {
 
 // PState is the state of one symbolic path.
 type PState struct {
-	ex      *Exec
-	pc      []T
-	decls   []string
-	env     map[ssa.Value]Val
-	cells   map[int]Val
-	heaps   map[string]T
-	kv      T
-	trace   T // (Array Int Int) ghost event trace (encoded events)
-	traceN  T
-	notes   []string
-	bounded bool
-	dead    bool
-	ncell   *int
+	ex       *Exec
+	pc       []T
+	decls    []string
+	env      map[ssa.Value]Val
+	cells    map[int]Val
+	heaps    map[string]T
+	kv       T
+	trace    T // (Array Int Int) ghost event trace (encoded events)
+	traceN   T
+	notes    []string
+	bounded  bool
+	dead     bool
+	ncell    *int
+	loopSnap map[int]*PState // state at the start of the current iteration, per loop ordinal
+	callRes  map[string]Val  // latest result of each callee (by method name) on this path, for guard clauses
 }
 
 func (ex *Exec) NewState() *PState {
@@ -222,6 +225,12 @@ func (st *PState) Clone() *PState {
 	c.heaps = make(map[string]T, len(st.heaps))
 	for k, v := range st.heaps {
 		c.heaps[k] = v
+	}
+	if st.callRes != nil {
+		c.callRes = make(map[string]Val, len(st.callRes))
+		for k, v := range st.callRes {
+			c.callRes[k] = v
+		}
 	}
 	return &c
 }
@@ -453,4 +462,32 @@ func stGet(state, sid, key T) T {
 
 func stSet(state, sid, key, val T) T {
 	return Store(state, sid, Store(Select(state, sid, SStore), key, val))
+}
+
+// Iters returns the store iterators alive on this path (held in SSA values or local cells).
+func (st *PState) Iters() []*IterVal {
+	seen := map[*IterVal]bool{}
+	var out []*IterVal
+	add := func(x Val) {
+		switch it := x.(type) {
+		case *IterVal:
+			if !seen[it] {
+				seen[it] = true
+				out = append(out, it)
+			}
+		case *IfaceVal:
+			if iv, ok := it.Payload.(*IterVal); ok && !seen[iv] {
+				seen[iv] = true
+				out = append(out, iv)
+			}
+		}
+	}
+	for _, x := range st.env {
+		add(x)
+	}
+	for _, x := range st.cells {
+		add(x)
+	}
+	sort.Slice(out, func(i, j int) bool { return out[i].IdxID < out[j].IdxID })
+	return out
 }
